@@ -3,6 +3,7 @@ package main
 import (
 	"encoding/json"
 	"fmt"
+	"strings"
 
 	"mltwist/pkg/expr"
 	"mltwist/verifh/emu"
@@ -78,10 +79,39 @@ func (mo *c04Monitor) check(m *emu.Machine) *eng.Fail {
 	return nil
 }
 
+// c04Filter keeps the monitor's own failures and turns a read that observes a value different
+// from the one the provider supplied (third clause of the property) into a C04 failure; every
+// other emulation mismatch is C03's business.
+func c04Filter(f *eng.Fail, mo *c04Monitor) *eng.Fail {
+	if f == nil {
+		return nil
+	}
+	if !strings.HasPrefix(f.Sig, "emulation") {
+		return f
+	}
+	d, ok := f.Observed.(*emu.Diff)
+	if !ok || d == nil || !mo.init {
+		return nil
+	}
+	switch d.Class {
+	case "report memload-value":
+		for i := 0; i < d.ReadW; i++ {
+			if mo.askedMem[d.ReadAddr+uint64(i)] {
+				return &eng.Fail{Sig: "supplied memory value not observed", What: "a later read does not observe the bytes the provider supplied: " + f.What, Case: f.Case}
+			}
+		}
+	case "report regload-value":
+		if mo.asked[d.ReadReg] {
+			return &eng.Fail{Sig: "supplied register value not observed", What: "a later read does not observe the register value the provider supplied: " + f.What, Case: f.Case}
+		}
+	}
+	return nil
+}
+
 func init() {
 	checks["C04"] = eng.Check{
 		Hist:        true,
-		Rule:        "the C03 program space (every program of <=3, thorough 4, instructions over the 26-word alphabet x 3 initial states incl. pre-loaded registers and memory) x <=8 steps with an instrumented state provider; a monitor checks every request: a register only if never preset, written or supplied, at most once; a memory range only if none of its bytes is in the image, preset, written or supplied and no byte twice; that later reads observe the supplied values is decided by the step-by-step comparison with the reference machine whose memory is image + provider bytes. Non-trivial = run with at least one provider request.",
+		Rule:        "the C03 program space (every program of <=3, thorough 4, instructions over the 26-word alphabet x 3 initial states incl. pre-loaded registers and memory) x <=8 steps with an instrumented state provider; a monitor checks every request: a register only if never preset, written or supplied, at most once; a memory range only if none of its bytes is in the image, preset, written or supplied and no byte twice; a read whose reported value differs from the reference machine (memory = image + provider bytes + program writes) and which covers a supplied byte / register is reported as 'supplied value not observed'. Non-trivial = run with at least one provider request.",
 		Assumptions: []string{"runs stop at the first state mismatch (reported by C03), so requests after a mismatch are not judged"},
 		Run: func(r *eng.Run) {
 			c03Enumerate(r, func(c c03Case) {
@@ -101,7 +131,8 @@ func init() {
 				if reqs > 0 {
 					r.Nontrivial(1)
 				}
-				if f != nil && len(f.Sig) > 9 && f.Sig[:9] != "emulation" {
+				f = c04Filter(f, mo)
+				if f != nil {
 					r.Report(f)
 					r.Outcome(f.Sig)
 				} else {
@@ -117,10 +148,7 @@ func init() {
 			}
 			mo := &c04Monitor{}
 			f, _, _ := c03Run(c, mo.check)
-			if f != nil && len(f.Sig) > 9 && f.Sig[:9] == "emulation" {
-				return nil
-			}
-			return f
+			return c04Filter(f, mo)
 		},
 	}
 }
